@@ -8,7 +8,7 @@ Oracle: an independent source resolver written from the property text.
 import hashlib
 import os
 
-from clastic import Application, Route, Response
+from clastic import Application, Route, Response, Middleware
 from clastic.decorators import clastic_decorator
 from clastic.route import BoundRoute
 from clastic.application import DispatchState
@@ -127,6 +127,9 @@ def gen_config(rng):
             # names: there the parameters fall back to their defaults -- nothing of the first parent may reach them
             cfgd['parent2'] = {'resources': [r for r in cfgd['parent']['resources'] if rng.random() < 0.35],
                                'prefix': rng.choice(['/two', '/up'])}
+    cfgd['replace_after'] = rng.random() < 0.4
+    if not cfgd.get('parent') and rng.random() < 0.3:
+        cfgd['strip_prefix'] = '/mnt'
     if utypes and rng.random() < 0.6:
         dn = list(rres) + ['dq%d' % i for i in range(len(utypes))]
         cfgd['decoy'] = [[dn[i], t] for i, (u, t) in enumerate(utypes)]
@@ -200,6 +203,24 @@ def make_error_handler(spec):
     return cls()
 
 
+class PrefixStripMW(Middleware):
+    def __init__(self, prefix):
+        self.prefix = prefix
+        self.seen = []
+
+    def wsgi_wrapper(self, inner):
+        from werkzeug.wrappers import Request
+
+        def wrapped(environ, start_response):
+            self.seen.append(Request(environ).path)        # e.g. for the access log
+            path = environ.get('PATH_INFO', '')
+            if path.startswith(self.prefix):
+                environ['SCRIPT_NAME'] = environ.get('SCRIPT_NAME', '') + self.prefix
+                environ['PATH_INFO'] = path[len(self.prefix):]
+            return inner(environ, start_response)
+        return wrapped
+
+
 def build(cfg, tag):
     resources = dict((r, Res(r, tag)) for r in cfg['resources'])
     route_resources = dict((r, Res(r, tag + '-route')) for r in cfg.get('route_resources', []))
@@ -222,7 +243,14 @@ def build(cfg, tag):
                       resources=resources, middlewares=objs['app'], error_handler=eh)
     allres = dict(resources)
     allres.update(route_resources)
+    handed_over = [resources, route_resources]
+    strip = cfg.get('strip_prefix')
     hosts = {}
+    if strip and not cfg.get('parent'):
+        # the application sits behind a WSGI wrapper of its own that looks at the request (as an access log would) and
+        # then strips the mount prefix from PATH_INFO before the application proper sees the environ
+        app = Application(first + [Route(pattern, ep, rn, middlewares=objs['route'], resources=route_resources)],
+                          resources=resources, middlewares=[PrefixStripMW(strip)] + objs['app'], error_handler=eh)
     if cfg.get('parent'):
         inner, inner_res, inner_pattern = app, dict(allres), pattern
         pres = dict((r, Res(r, tag + '-parent')) for r in cfg['parent']['resources'])
@@ -235,7 +263,15 @@ def build(cfg, tag):
             res2 = dict(inner_res)
             res2.update(pres2)
             hosts[2] = (app2, res2, cfg['parent2']['prefix'] + inner_pattern)
+            handed_over.append(pres2)
+        handed_over.append(pres)
     hosts[1] = (app, allres, pattern)
+    if cfg.get('replace_after'):
+        # the program goes on using ITS dicts (e.g. to configure the next application): what was registered when the
+        # application was built stays registered
+        for d in handed_over:
+            for k in list(d):
+                d[k] = Res(k, tag + '-REPLACED-AFTER-CONSTRUCTION')
     return hosts
 
 
@@ -377,7 +413,7 @@ class C02(Check):
     level_note = 'Trusted: the resolver (~40 lines from the property text), generator validity rules V1-V3.'
     required_probes = ('embedded-in-parent-offering-more-names', 'decoy-route-binding-named-like-resource', 'positional-next-multi', 'render-error-injected', 'optional-got-offered-value', 'kwonly-got-offered-value', 'null-route-defaults', 'concurrent-batch',
                        'kind-lambda', 'kind-callable', 'kind-classmethod', 'kind-decorated', 'multi-url-value',
-                       'url-list-value-mutated-after-request', 'same-url-as-previous-request-while-another-is-served', 'same-application-embedded-in-second-parent', 'name-spelled-like-generated-code-identifier', 'default-for-name-provided-elsewhere', 'optional-url-binding-absent', 'optional-url-binding-zero', 'optional-url-binding-present', 'url-value-zero', 'multi-url-binding-empty')
+                       'callers-dict-changed-after-construction', 'behind-prefix-stripping-wrapper', 'url-list-value-mutated-after-request', 'same-url-as-previous-request-while-another-is-served', 'same-application-embedded-in-second-parent', 'name-spelled-like-generated-code-identifier', 'default-for-name-provided-elsewhere', 'optional-url-binding-absent', 'optional-url-binding-zero', 'optional-url-binding-present', 'url-value-zero', 'multi-url-binding-empty')
 
     def generate(self, seed, tier):
         S = Streams(seed)
@@ -459,6 +495,10 @@ class C02(Check):
             res.probe('decoy-route-binding-named-like-resource')
         if cfg.get('parent'):
             res.probe('embedded-in-parent-offering-more-names')
+        if cfg.get('replace_after') and (cfg['resources'] or cfg.get('route_resources')):
+            res.probe('callers-dict-changed-after-construction')
+        if cfg.get('strip_prefix') and not cfg.get('parent'):
+            res.probe('behind-prefix-stripping-wrapper')
         used = set(p for m in cfg['mws'] for f in m['funcs'].values() for p in declared_of(f)) | set(declared_of(cfg['ep'])) | set(declared_of(cfg['rn']))
         if used & set(HAZARD_NAMES):
             res.probe('name-spelled-like-generated-code-identifier')
@@ -481,6 +521,8 @@ class C02(Check):
                 path = (pcfg['prefix'] if pcfg else '') + path
             else:
                 path = '/nowhere/%d' % r['seq']
+            if cfg.get('strip_prefix') and not cfg.get('parent'):
+                path = cfg['strip_prefix'] + path
             env = make_environ('GET', path)
             env['sim.seq'] = r['seq']
             envs[r['seq']] = env
